@@ -429,6 +429,14 @@ def history_programs(dev, same_name=False):
     h = _hdr("history/long", dev, base_labware(), wlmax=5, flags={"comp": False, "norm": False, "fullhist": True})
     h["ops"] = ops
     progs.append(h)
+    # labels that merely resemble the keywords of condense_log ("first" / "last" themselves are not generated, see DESIGN)
+    h = _hdr("history/keyword-like-labels", dev, base_labware(), wlmax=5, flags={"comp": False, "norm": False, "fullhist": True})
+    h["ops"] = [{"op": "transfer", "src": T, "sw": L([(0, 0)]), "dst": P, "dw": L([(0, 1)]), "vols": S(2), "label": lab, "wash": 1}
+                for lab in ("Last", "FIRST", " last ", "last one", "first", "lastly", "First step", "LAST")
+                if lab != "first"] + [
+               {"op": "distribute", "src": T, "col": 0, "dst": P, "dw": L([(1, 1), (2, 1)]), "vol": 1, "label": "Last"},
+               {"op": "aspirate", "lw": P, "wells": L([(0, 1)]), "vols": S(1), "label": "First"}]
+    progs.append(h)
     # the history API used directly: log() and condense_log() with a given label, "first", "last" and the default
     h = _hdr("history/api", dev, base_labware(), wlmax=5, flags={"comp": False, "norm": False, "fullhist": True})
     h["ops"] = [
